@@ -53,6 +53,16 @@ def has_location(e):
 
 
 def classify(src, venom, level, limit, phase="bytecode", files=None):
+    r = classify1(src, venom, level, limit, phase, files)
+    if r.get("exc") == "Timeout":
+        # a loaded machine must not produce a finding: retry once, alone, with 4x the limit
+        r = classify1(src, venom, level, 4 * limit, phase, files)
+        if r.get("exc") == "Timeout":
+            r["msg"] = f"no result within {limit}s and, retried, within {4 * limit}s"
+    return r
+
+
+def classify1(src, venom, level, limit, phase="bytecode", files=None):
     from vyper.compiler import compile_code
     from vyper.compiler.settings import OptimizationLevel, Settings
     from vyper.exceptions import VyperException, VyperInternalException
@@ -74,7 +84,8 @@ def classify(src, venom, level, limit, phase="bytecode", files=None):
     except Timeout:
         return {"outcome": "INTERNAL", "exc": "Timeout", "frame": "?", "msg": f"no result within {limit}s"}
     except VyperInternalException as e:
-        return {"outcome": "INTERNAL", "exc": type(e).__name__, "frame": innermost_vyper_frame(e.__traceback__), "msg": str(e)[:300]}
+        return {"outcome": "INTERNAL", "exc": type(e).__name__, "frame": innermost_vyper_frame(e.__traceback__), "msg": str(e)[:300],
+                "vyper_internal": True}
     except VyperException as e:
         return {"outcome": "user", "exc": type(e).__name__, "loc": has_location(e), "frame": innermost_vyper_frame(e.__traceback__),
                 "msg": str(e)[:160]}
